@@ -56,6 +56,99 @@ impl<T> SyncResultSender<T> {
 
         self.result_signal.notify_all();
     }
+
+    // Sets the result only if none has been set yet.  Returns whether the value was applied.
+    #[cfg_attr(not(feature="threaded"), allow(dead_code))]
+    pub(crate) fn try_apply(&self, value: T) -> bool {
+        let mut current_value = self.result_lock.lock().unwrap();
+
+        if current_value.is_some() {
+            return false;
+        }
+
+        *current_value = Some(value);
+
+        self.result_signal.notify_all();
+
+        true
+    }
+}
+
+/// Owns the sending side of an operation result.  If it is dropped without a result having been
+/// applied (the client shut down with the operation still queued), the waiting receiver gets
+/// the fallback value instead of blocking forever.
+#[cfg_attr(not(feature="threaded"), allow(dead_code))]
+pub(crate) struct SyncResultDropGuard<T> {
+    sender: SyncResultSender<T>,
+    fallback: Option<Box<dyn FnOnce() -> T + Send + Sync>>
+}
+
+#[cfg_attr(not(feature="threaded"), allow(dead_code))]
+impl<T> SyncResultDropGuard<T> {
+    pub(crate) fn new(sender: SyncResultSender<T>, fallback: Box<dyn FnOnce() -> T + Send + Sync>) -> Self {
+        SyncResultDropGuard {
+            sender,
+            fallback: Some(fallback)
+        }
+    }
+
+    pub(crate) fn apply(mut self, value: T) {
+        self.fallback = None;
+        self.sender.apply(value);
+    }
+}
+
+impl<T> Drop for SyncResultDropGuard<T> {
+    fn drop(&mut self) {
+        if let Some(fallback) = self.fallback.take() {
+            self.sender.try_apply(fallback());
+        }
+    }
+}
+
+/// Owns a user-supplied completion callback.  If it is dropped without the callback having been
+/// invoked (the client shut down with the operation still queued), the callback is invoked with
+/// the fallback value, unless the guard was disarmed because the failure has already been
+/// reported to the caller synchronously.
+#[cfg_attr(not(feature="threaded"), allow(dead_code))]
+pub(crate) struct SyncCallbackDropGuard<T> {
+    callback: Option<Box<dyn Fn(T) + Send + Sync>>,
+    fallback: Option<Box<dyn FnOnce() -> T + Send + Sync>>,
+    disarmed: Arc<std::sync::atomic::AtomicBool>
+}
+
+#[cfg_attr(not(feature="threaded"), allow(dead_code))]
+impl<T> SyncCallbackDropGuard<T> {
+    pub(crate) fn new(callback: Box<dyn Fn(T) + Send + Sync>, fallback: Box<dyn FnOnce() -> T + Send + Sync>) -> Self {
+        SyncCallbackDropGuard {
+            callback: Some(callback),
+            fallback: Some(fallback),
+            disarmed: Arc::new(std::sync::atomic::AtomicBool::new(false))
+        }
+    }
+
+    pub(crate) fn disarm_handle(&self) -> Arc<std::sync::atomic::AtomicBool> {
+        self.disarmed.clone()
+    }
+
+    pub(crate) fn invoke(mut self, value: T) {
+        self.fallback = None;
+        if let Some(callback) = self.callback.take() {
+            callback(value);
+        }
+    }
+}
+
+impl<T> Drop for SyncCallbackDropGuard<T> {
+    fn drop(&mut self) {
+        if self.disarmed.load(std::sync::atomic::Ordering::SeqCst) {
+            return;
+        }
+
+        if let (Some(callback), Some(fallback)) = (self.callback.take(), self.fallback.take()) {
+            callback(fallback());
+        }
+    }
 }
 
 #[cfg_attr(not(feature="threaded"), allow(dead_code))]
